@@ -56,13 +56,42 @@ def cells(tier, seed):
                     h, wd = rnd.choice(SIDES), rnd.choice(SIDES)
                     out.append({'dir': direction, 'dim': 2, 'wave': w, 'mode': mode, 'J': rnd.choice([1, 1, 2]),
                                 'shape': [h, wd], 'N': 1, 'C': 1})
+    for name, filt in CUSTOM.items():
+        for direction in ('forward', 'inverse'):
+            for _ in range(2 if tier == 'quick' else 12):
+                dim = rnd.choice([1, 2])
+                out.append({'dir': direction, 'dim': dim, 'wave': name, 'filters': [list(filt[0]), list(filt[1])], 'mode': 'zero',
+                            'J': rnd.choice([1, 2]), 'shape': [rnd.choice(LENS[:10])] if dim == 1 else [rnd.choice(SIDES), rnd.choice(SIDES)],
+                            'N': 1, 'C': 1})
     rnd.shuffle(out)
     if tier == 'thorough':
         out.insert(0, {'suite': True, 'dir': 'suite', 'dim': 0, 'wave': 'repository tests', 'mode': '-', 'J': 0, 'shape': []})
     return out
 
 
+# custom filter banks with an ODD number of taps (tuple form of the constructors; no pywt wavelet has
+# odd length).  Only 'zero' mode: the library's periodization and extension arithmetic assumes even L.
+S2 = 2 ** 0.5
+CUSTOM = {
+    'legall-5/3-padded': ([-S2 / 8, S2 / 4, 3 * S2 / 4, S2 / 4, -S2 / 8], [0.0, -S2 / 4, S2 / 2, -S2 / 4, 0.0]),
+    'odd-7': ([0.02, -0.05, 0.3, 0.7, 0.35, -0.08, 0.01], [0.01, 0.06, -0.4, 0.75, -0.33, -0.07, 0.02]),
+    'odd-3': ([0.25, 0.5, 0.25], [-0.5, 1.0, -0.5]),
+}
+
+
+def build_custom(cell):
+    import torch
+    import pytorch_wavelets as pw
+    f0, f1 = [np.array(f) for f in cell['filters']]
+    with util.default_dtype(torch.float64):
+        if cell['dir'] == 'forward':
+            return (pw.DWT1DForward if cell['dim'] == 1 else pw.DWTForward)(J=cell['J'], wave=(f0, f1), mode=cell['mode'])
+        return (pw.DWT1DInverse if cell['dim'] == 1 else pw.DWTInverse)(wave=(f0, f1), mode=cell['mode'])
+
+
 def kf_for(cell):
+    if cell.get('filters'):
+        return None
     L = refs.flen(cell['wave'])
     mode = cell['mode']
     lens = [c01.level_lengths(n, L, mode, cell['J']) for n in cell['shape']]
@@ -88,7 +117,7 @@ def forward_dir(cell, seed, mod=None, tag=''):
     import torch
     out = []
     kf = kf_for(cell)
-    mod = mod if mod is not None else c01.build(cell)
+    mod = mod if mod is not None else (build_custom(cell) if cell.get('filters') else c01.build(cell))
     sp = cell['shape']
     n_in = int(np.prod(sp))
     ok, y = util.call_lib(mod, util.impulses(sp))
@@ -203,7 +232,7 @@ def inverse_dir(cell, seed, inv=None, tag=''):
     import torch
     out = []
     kf = kf_for(cell)
-    inv = inv if inv is not None else c10.build(cell)
+    inv = inv if inv is not None else (build_custom(cell) if cell.get('filters') else c10.build(cell))
     J = cell['J']
     lo, det = c10.pyramid_shapes(cell)
     ncoef = int(np.prod(lo)) + sum(int(np.prod(d)) * (1 if cell['dim'] == 1 else 3) for d in det)
@@ -516,7 +545,7 @@ def run_cell(cell, seed):
         return suite_cell(cell, PROP, ['tests/test_dwt.py', 'tests/test_dwt1d.py'])
     del _FN['log'][:]
     out = forward_dir(cell, seed) if cell['dir'] == 'forward' else inverse_dir(cell, seed)
-    if cell['mode'] in ('zero', 'periodization') and not any(n % 2 for n in cell['shape']):
+    if cell['mode'] in ('zero', 'periodization') and not any(n % 2 for n in cell['shape']) and not cell.get('filters'):
         out.extend(reload_history(cell, seed))
     fn = drain_fn(cell)
     # keep one Function-level verdict per (class, status) per cell to bound the evidence size
